@@ -184,8 +184,14 @@ func signWidths(d consts.ActiveSafetyType) (idLen, signLen int) {
 
 func (g *Gen) alarmSign(d consts.ActiveSafetyType) model.P9208AlarmSign {
 	idLen, signLen := signWidths(d)
+	// the sign's terminal id is read with bytes.Trim (both sides): ids that BEGIN with NUL are the recorded
+	// finding C07/sign-id-leading-nul, exercised by its own witness (cmd/C07 signIDFinding), not by this stream
+	tid := []byte(g.Padded(idLen, false))
+	if len(tid) > 0 && tid[0] == 0 {
+		tid[0] = 0x43
+	}
 	return model.P9208AlarmSign{
-		TerminalID:       g.Padded(idLen, false),
+		TerminalID:       string(tid),
 		Time:             g.Time(),
 		SerialNumber:     g.u8(),
 		AttachNumber:     g.u8(),
